@@ -375,17 +375,19 @@ def sysStep (s : Sys) : SysLabel → Option Sys
 
 /-! ## 3. the page's program -/
 
-inductive Instr where
-  | sched (p : Path) (d : Data)
-  /-- `flush().await`: take the receivers, continue when all of them are settled -/
-  | flush
-deriving DecidableEq, Repr
+/-- a stage: `schedule` calls, then `flush().await` over the receivers pending at that moment -/
+abbrev Stage := List (Path × Data)
 
 structure PSt where
   q : St := {}
-  /-- rest of the running block (one block = one `init` / `commit` call) -/
-  cur : List Instr := []
-  rest : List (List Instr) := []
+  /-- `schedule` calls left in the running stage -/
+  cur : Stage := []
+  /-- a stage is running: its remaining calls and its flush are still to come -/
+  inStage : Bool := false
+  /-- stages of the running block after the current one (one block = one `init`/`commit` call) -/
+  stages : List Stage := []
+  /-- blocks not begun -/
+  rest : List (List Stage) := []
   /-- the flush the program is blocked on -/
   waiting : Option Nat := none
   /-- number of blocks whose call has begun -/
@@ -411,19 +413,24 @@ def progStep (s : PSt) : Option PSt :=
   match s.waiting with
   | some f =>
     if flushDone s.q f then
-      some { s with waiting := none,
-                    resolvedBlocks := if s.cur.isEmpty then s.resolvedBlocks + 1 else s.resolvedBlocks }
+      match s.stages with
+      | st :: ss => some { s with waiting := none, cur := st, stages := ss, inStage := true }
+      | [] => some { s with waiting := none, resolvedBlocks := s.resolvedBlocks + 1 }
     else none
   | none =>
-    match s.cur with
-    | Instr.sched p d :: is => some { s with q := doSched s.q p d, cur := is }
-    | Instr.flush :: is =>
-      some { s with q := { s.q with flushes := s.q.flushes ++ [s.q.rxs], rxs := [] },
-                    waiting := some s.q.flushes.length, cur := is }
-    | [] =>
+    if s.inStage then
+      match s.cur with
+      | pd :: is => some { s with q := doSched s.q pd.1 pd.2, cur := is }
+      | [] =>
+        some { s with q := { s.q with flushes := s.q.flushes ++ [s.q.rxs], rxs := [] },
+                      waiting := some s.q.flushes.length, inStage := false }
+    else
       match s.rest with
       | [] => none
-      | b :: bs => some { s with cur := b, rest := bs, started := s.started + 1 }
+      | [] :: bs =>
+        some { s with rest := bs, started := s.started + 1, resolvedBlocks := s.resolvedBlocks + 1 }
+      | (st :: ss) :: bs =>
+        some { s with cur := st, stages := ss, inStage := true, rest := bs, started := s.started + 1 }
 
 def pstep (s : PSt) : PLabel → Option PSt
   | .prog => progStep s
@@ -456,16 +463,16 @@ structure Commit where
   post : List Data := []
 deriving DecidableEq, Repr
 
-/-- the code as it exists: segment files, manifest, log, then one `flush` -/
-def blockOf (c : Commit) : List Instr :=
-  c.pre.map (Instr.sched walPath) ++ c.files.map (fun f => Instr.sched f.1 f.2) ++
-    [Instr.sched manifestPath c.manifest] ++ c.post.map (Instr.sched walPath) ++ [Instr.flush]
+/-- the code as it exists: log, segment files, manifest, log — then one `flush` -/
+def blockOf (c : Commit) : List Stage :=
+  [c.pre.map (fun d => (walPath, d)) ++ c.files ++ [(manifestPath, c.manifest)] ++
+    c.post.map (fun d => (walPath, d))]
 
 /-- the repaired protocol: the files a manifest names are awaited before the manifest is
 scheduled -/
-def blockRepaired (c : Commit) : List Instr :=
-  c.pre.map (Instr.sched walPath) ++ c.files.map (fun f => Instr.sched f.1 f.2) ++ [Instr.flush] ++
-    [Instr.sched manifestPath c.manifest] ++ c.post.map (Instr.sched walPath) ++ [Instr.flush]
+def blockRepaired (c : Commit) : List Stage :=
+  [c.pre.map (fun d => (walPath, d)) ++ c.files,
+   (manifestPath, c.manifest) :: c.post.map (fun d => (walPath, d))]
 
 def initP (cs : List Commit) (repaired : Bool) : PSt :=
   { q := { awaitComplete := repaired },
